@@ -252,7 +252,7 @@ func init() {
 			th.advanceTimers(caller, pos, true)
 			return nil
 		},
-		V + "Now": func(th *Thread, _ *frame, _ token.Pos, _ *ssa.Function, a []Value) Value { return th.R.now() },
+		V + "NowNano": func(th *Thread, _ *frame, _ token.Pos, _ *ssa.Function, a []Value) Value { return th.R.nowTerm() },
 		V + "LocksHeld": func(th *Thread, _ *frame, _ token.Pos, _ *ssa.Function, a []Value) Value {
 			n := 0
 			for _, ls := range th.R.locks {
